@@ -340,7 +340,45 @@ func runC10(r *ev.Run) {
 					return
 				}
 				defer rs.Close()
-				a := searchAllModalities(rs, p)
+				var a storeAnswers
+				if vi%4 == 1 {
+					// the first searches after the restart arrive together (an application serving requests): every segment,
+					// damaged ones included, is loaded for the first time by several searches at once
+					const G = 3
+					as := make([]storeAnswers, G)
+					panics := make([]any, G)
+					var wg sync.WaitGroup
+					for g := 0; g < G; g++ {
+						wg.Add(1)
+						go func(g int) {
+							defer wg.Done()
+							defer func() { panics[g] = recover() }()
+							as[g] = searchAllModalities(rs, p)
+						}(g)
+					}
+					wg.Wait()
+					for g := 0; g < G; g++ {
+						if panics[g] != nil {
+							rep("crash.search-panics", fmt.Sprintf("image %s: one of %d simultaneous first searches panicked: %v", v.origin, G, panics[g]), wit())
+							return
+						}
+						if as[g].Err != nil {
+							rep("crash.search-fails", fmt.Sprintf("image %s (one of %d simultaneous first searches): %v", v.origin, G, as[g].Err), wit())
+							return
+						}
+					}
+					a = as[0]
+					for g := 1; g < G; g++ {
+						for name, pair := range map[string][2]map[uint32]bool{"vector": {a.Vec, as[g].Vec}, "text": {a.Text, as[g].Text}, "metadata": {a.Meta, as[g].Meta}} {
+							if pair[0] != nil && !sameSet(pair[0], pair[1]) {
+								rep("crash.second-search-differs", fmt.Sprintf("image %s: %s answers differ between simultaneous first searches", v.origin, name), wit())
+							}
+						}
+					}
+					r.Count("images:first-searches-issued-simultaneously", 1)
+				} else {
+					a = searchAllModalities(rs, p)
+				}
 				if a.Err != nil {
 					rep("crash.search-fails", fmt.Sprintf("image %s: %v", v.origin, a.Err), wit())
 					return
